@@ -49,8 +49,13 @@ def main():
         fired = [p for p, (rc, _) in res.items() if rc == 1]
         closed = [p for p, (rc, _) in res.items() if rc == 2]
         if kind == "refactor":
-            status = "OK" if not fired else "FALSE-ALARM"
-            bad += bool(fired)
+            exp_path = os.path.join(os.path.dirname(path), "expected.json")
+            expected = json.load(open(exp_path)) if os.path.exists(exp_path) else {}
+            unexpected = [p for p in fired if p not in expected]
+            status = "OK" if not unexpected else "FALSE-ALARM"
+            if expected:
+                status += f" (expected, argued genuine: {sorted(expected)})"
+            bad += bool(unexpected)
             print(f"refactor {name}: {status}  violations={fired} fail-closed={closed}")
             for p in fired + closed:
                 for l in res[p][1]:
